@@ -68,7 +68,9 @@ impl PosOracle for C18 {
 pub const RULE: &str = "states = every position of the bounded trees (null move is also an action, up to 2 per path, so null moves interleave with real moves), families and children; each judged: null_move() is None iff the reference says in check; otherwise same placement and rights, other side to move, en_passant() None, and == the passed position built from scratch (covers checkers, pinned, hash). distinct_nontrivial = judged states in check, with en-passant state, after an earlier null move, or whose passed position has pins";
 
 pub fn run(tier: Tier) -> i32 {
-    let (run, _) = run_e1("C18", tier, COUNTERS, C18, with_line_geometry(with_ep_slider_family(standard_plan(tier, 1), tier), true, tier.pick(0, 1)), RULE, &[]);
+    let mut plan = with_line_geometry(with_ep_slider_family(standard_plan(tier, 1), tier), true, tier.pick(0, 1));
+    plan.call_order_big = true;
+    let (run, _) = run_e1("C18", tier, COUNTERS, C18, plan, RULE, &[]);
     finish(&run, RULE)
 }
 pub fn replay(case: &Value) -> i32 {
